@@ -356,6 +356,17 @@ def _extent_then_tested_write(fn, g, cn, c):
     return g.exit.id not in g.reach([cn.id], avoid=writes)
 
 
+def _wraps_publish(tu, name, seen=()):
+    """does library function `name` (transitively, depth <= 3) call digital_rf_close_hdf5_file?"""
+    fn = tu.functions.get(name)
+    if fn is None or name in seen or len(seen) > 3:
+        return False
+    for c in fn.calls():
+        if c.callee == "digital_rf_close_hdf5_file" or _wraps_publish(tu, c.callee, seen + (name,)):
+            return True
+    return False
+
+
 def r4_no_lost_status(repo=None):
     r = Rule("C10.R4", "no I/O status is lost (discarded or overwritten before being tested)")
     tu = cfront.lib(repo)
@@ -383,7 +394,9 @@ def r4_no_lost_status(repo=None):
             if c.callee in FLUSH:
                 # (a) a close that can only run after this function's publish call is not a flush point of the
                 #     file being published; (b) a handle obtained from H5Fopen(.., H5F_ACC_RDONLY) has nothing to flush
-                pubs = [_node_of(g, p) for p in fn.calls(("digital_rf_close_hdf5_file",))]
+                # (the publish call itself, or a library helper that wraps it)
+                pubs = [_node_of(g, p) for p in fn.calls() if p.callee == "digital_rf_close_hdf5_file" or _wraps_publish(tu, p.callee)]
+                pubs = [p for p in pubs if p is not None]
                 if pubs and all(cn.id in g.reach([p.id]) and p.id not in g.reach([cn.id]) for p in pubs):
                     r.allowed("%s: %s after the publish call" % (fname, c.nsrc),
                               "defensive close executed only after the previous file was published; the handle belongs to "
